@@ -134,6 +134,98 @@ theorem C15_messages_as_specified (impl : Impl) (app : Str) (override : Bool) (s
     simp only [msgIdVal, hid]
     exact ⟨trivial, hlt⟩
 
+/-- "Enum members … encode as their underlying value": in the generated module the value of every member of a character
+    enum is the one-character text written in the `<value>` element (no escaping, no quoting artefacts), member names and
+    order as in the document -/
+theorem C15_char_enum_values (impl : Impl) (app : Str) (override : Bool) (s : Spec) (h : wfSpec impl s = true) :
+    ∃ m sch, gen impl app override s = .ok m ∧ evalModule m = .ok sch
+      ∧ sch.enums.length = s.enums.length
+      ∧ ∀ e ∈ s.enums, ∀ p : Prim, e.ty = some p.id → p.isChar = true →
+          (⟨e.name, e.values.map fun v => (v.name, DVal.str v.value)⟩ : EnumS) ∈ sch.enums
+            ∧ ∀ v ∈ e.values, v.value.length = 1 := by
+  obtain ⟨h1, h2, _⟩ := gen_eval_denote app override h
+  have hw := wfSpec_inv h
+  refine ⟨_, _, h1, h2, by simp [specSchema], ?_⟩
+  intro e he p hty hch
+  have hk : p.kind = .text := by cases p <;> first | rfl | cases hch
+  have hden : denoteEnum e = .ok ⟨e.name, e.values.map fun v => (v.name, DVal.str v.value)⟩ := by
+    have hm : mapE (fun (v : EnumVal) => do
+          let d ← docValue p.kind v.value
+          pure (v.name, d)) e.values = .ok (e.values.map fun v => (v.name, DVal.str v.value)) := by
+      apply mapE_ok
+      intro v _
+      rw [hk]
+      rfl
+    unfold denoteEnum
+    rw [hty]
+    simp only [Option.bind_some, docPrim_id]
+    rw [hm]
+    rfl
+  have hsem : enumSem e = ⟨e.name, e.values.map fun v => (v.name, DVal.str v.value)⟩ := getOk_eq hden
+  refine ⟨?_, ?_⟩
+  · rw [← hsem]
+    exact List.mem_map.mpr ⟨e, he, rfl⟩
+  · intro v hv
+    have hwe := hw.enums e he
+    unfold wfEnum at hwe
+    rw [hty] at hwe
+    simp only [Option.bind_some, docPrim_id, Bool.and_eq_true, List.all_eq_true] at hwe
+    have := (hwe.1.2 v hv).2
+    rw [hk, hch] at this
+    simp only [wfConst, Bool.not_true, Bool.false_or, Bool.and_eq_true, beq_iff_eq] at this
+    exact this.2
+
+/-- "unset fields encode their declared default": the default a field denotes — hence, by `C15_gen_denotes`, the
+    `default_value` of the generated `Field` — is the `default` attribute read in the field's datatype: the text itself for
+    character and string types, the integer it spells for integer types; no attribute, no default -/
+theorem C15_default_as_declared {s : Spec} {f0 : FieldEl} {fs : FieldS} (h : denoteField s f0 = .ok fs) :
+    match (resolvedF s f0).dflt with
+    | none => fs.dflt = none
+    | some v => fs.dflt = some (.str v) ∨ ∃ i, parseInt? v = some i ∧ fs.dflt = some (.int i) := by
+  unfold denoteField at h
+  unfold resolvedF
+  cases hr : resolveDef s f0 with
+  | error e => rw [hr] at h; cases h
+  | ok f =>
+    rw [hr] at h
+    simp only at h ⊢
+    unfold denoteResolved at h
+    cases hd : docElemTy s f with
+    | error e => rw [hd] at h; cases h
+    | ok td =>
+      obtain ⟨t, dom⟩ := td
+      rw [hd] at h
+      simp only at h
+      cases hn : f.name with
+      | none => rw [hn] at h; cases h
+      | some name =>
+        rw [hn] at h
+        simp only at h
+        cases harr : f.array with
+        | some a =>
+          rw [harr] at h
+          cases hdf : f.dflt with
+          | none => rw [hdf] at h; simp only at h ⊢; cases h; rfl
+          | some v => rw [hdf] at h; simp only at h; cases h
+        | none =>
+          rw [harr] at h
+          cases hdf : f.dflt with
+          | none => rw [hdf] at h; simp only at h ⊢; cases h; rfl
+          | some v =>
+            rw [hdf] at h
+            cases dom with
+            | none => simp only at h; cases h
+            | some k =>
+              simp only at h ⊢
+              cases k with
+              | bool => simp [docValue] at h
+              | text => simp only [docValue] at h; cases h; exact Or.inl rfl
+              | int =>
+                simp only [docValue] at h
+                cases hp : parseInt? v with
+                | none => rw [hp] at h; cases h
+                | some i => rw [hp] at h; cases h; exact Or.inr ⟨i, rfl, rfl⟩
+
 /-- "big/little-endian array counts": the count class the generator writes is `UnsignedShortBE` exactly for
     `endian="big"`, and `UnsignedShort` for every other or no `endian` attribute -/
 theorem C15_array_count (e : Option Str) :
